@@ -127,7 +127,7 @@ func c17dInfoAny(in c17dAny) ev.Info {
 }
 
 var c17dULabels = []string{
-	"\u0442\u0435\u0441\u0442", "b\u00fccher", "stra\u00dfe", "\u03b5\u03bb\u03bb\u03ac\u03b4\u03b1", "\u4f8b\u3048", "caf\u00e9", "\u0439\u043e\u0433", "\u03b1\u0390\u03b1",
+	"\u0442\u0435\u0441\u0442", "b\u00fccher", "stra\u00dfe", "\u03b5\u03bb\u03bb\u03ac\u03b4\u03b1", "\u4f8b\u3048", "caf\u00e9", "\u0439\u043e\u0433", "\u03b1\u0390\u03b1", "i\u0307stanbul",
 	"example", "mail", "sub-1", "a", "org", "x1",
 }
 
@@ -175,7 +175,7 @@ func (s c17dSpell) String() string {
 	case 4:
 		return strings.ToUpper(l.A)
 	case 6:
-		if up := norm.NFC.String(strings.ToUpper(norm.NFD.String(l.U))); norm.NFC.String(strings.ToLower(up)) == l.U {
+		if up := norm.NFC.String(strings.ToUpper(norm.NFD.String(l.U))); norm.NFC.String(strings.ToLower(norm.NFD.String(up))) == l.U {
 			return up
 		}
 		return l.U
